@@ -2,6 +2,7 @@
 from __future__ import annotations
 
 import os
+import random
 
 import numpy as np
 
@@ -65,6 +66,15 @@ def zipped_2d(case):
         if len(full) != len(set(full)):
             return True
     return False
+
+
+def _kinds(xs):
+    """Element kinds of a coordinate / input (a label 1 is not the label '1')."""
+    out = []
+    for x in np.asarray(xs, dtype=object).ravel().tolist():
+        out.append("bool" if isinstance(x, (bool, np.bool_)) else "int" if isinstance(x, (int, np.integer)) else
+                   "float" if isinstance(x, (float, np.floating)) else "str" if isinstance(x, str) else type(x).__name__)
+    return out
 
 
 def _variant(inputs, tag):
@@ -194,6 +204,13 @@ def _run_one(v, case, scratch, i):
                             got = None
                         if got is None or probes.render(got) != probes.render(inputs[r]):
                             v.bad("coordinate-values-differ", f"zipped coordinate {cn} of {o}: component {r} = {probes.render(got)[:100] if got is not None else None} != input {probes.render(inputs[r])[:100]}", **w)
+                        elif _kinds(got) != _kinds(inputs[r]):
+                            v.bad("coordinate-label-types-differ/zipped", f"zipped coordinate {cn} of {o}: component {r} holds {sorted(set(_kinds(got)))} labels, "
+                                  f"the input holds {sorted(set(_kinds(inputs[r])))}", **w)
+                        else:
+                            v.count("zipped_label_types_compared")
+                            if len({tuple(sorted(set(_kinds(inputs[z])))) for z in cn.split(":") if z in inputs}) > 1:
+                                v.count("zipped_coordinates_of_mixed_kinds")
                         continue
                     c = da.coords[r]
                     if tuple(map(str, c.dims)) != (a,):
@@ -201,6 +218,9 @@ def _run_one(v, case, scratch, i):
                         continue
                     if probes.render(c.values) != probes.render(inputs[r]):
                         v.bad("coordinate-values-differ", f"coordinate {r} of {o}: {probes.render(c.values)[:100]} != input {probes.render(inputs[r])[:100]}", **w)
+                        continue
+                    if _kinds(c.values) != _kinds(inputs[r]):
+                        v.bad("coordinate-label-types-differ", f"coordinate {r} of {o} holds {sorted(set(_kinds(c.values)))} labels, the input {sorted(set(_kinds(inputs[r])))}", **w)
                         continue
                     # selection by value (plain coordinates only)
                     idx = da.indexes.get(r) if hasattr(da, "indexes") else None
@@ -227,12 +247,40 @@ def _run_one(v, case, scratch, i):
     return nontrivial
 
 
+def zip_family(seed, i):
+    """Directed family: 2-3 one-dimensional inputs of DIFFERENT element kinds (str list, str object array, int64 array)
+    zipped along one axis, optionally crossed with another input, optionally followed by an element-wise function."""
+    rng = random.Random(f"c19zip:{seed}:{i}")
+    sizes = {a: rng.randint(2, 4) for a in mapgen.AX}
+    kinds = rng.sample(["list", "ndarray", "ndarray-int"], rng.choice([2, 2, 3]))
+    roots = {f"x{k}": {"axes": ["i"], "kind": kd} for k, kd in enumerate(kinds)}
+    params, modes, out_axes = list(roots), {r: ["i"] for r in roots}, ["i"]
+    if rng.random() < 0.5:
+        roots["xk"] = {"axes": ["k"], "kind": rng.choice(["list", "ndarray-int"])}
+        params.append("xk")
+        modes["xk"] = ["k"]
+        out_axes = ["i", "k"] if rng.random() < 0.5 else ["k", "i"]
+
+    def fn(name, params, outs, modes, out_axes):
+        ins = ", ".join(f"{p}[{', '.join(m)}]" for p, m in modes.items())
+        return {"name": name, "params": params, "outs": outs, "mapspec": f"{ins} -> " + ", ".join(f"{o}[{', '.join(out_axes)}]" for o in outs),
+                "modes": modes, "out_axes": list(out_axes), "internal": [], "internal_shape": [], "ret_list": False, "ishape_via": None}
+    funcs = [fn("f0", params, ["y0"], modes, out_axes)]
+    if rng.random() < 0.5:
+        funcs.append(fn("f1", ["y0"], ["y1"], {"y0": list(out_axes)}, out_axes))
+    return {"sizes": sizes, "roots": roots, "funcs": funcs}
+
+
 def run_case(desc):
     v = V()
     keys, sample = [], None
     with tmpdir("c19-") as scratch:
         for i in range(desc["start"], desc["start"] + desc["n"]):
-            case = mapgen.case_from_seed(desc["seed"], i, allow_int_arrays=(i % 2 == 0))
+            if i % 5 == 4:
+                case = zip_family(desc["seed"], i)
+                v.count("zip_family_cases")
+            else:
+                case = mapgen.case_from_seed(desc["seed"], i, allow_int_arrays=(i % 2 == 0))
             v.hit(mapgen.classes(case))
             nt = run_one(v, case, scratch, i)
             if nt:
@@ -249,6 +297,8 @@ def finalize(agg, tier, seed):
         floors.append(f"only {agg.classes.get('zip', 0)} cases with a zipped pair (< 50)")
     if agg.classes.get("generator", 0) < 20:
         floors.append(f"only {agg.classes.get('generator', 0)} cases with a generator intermediate (< 20)")
+    if c.get("zipped_coordinates_of_mixed_kinds", 0) < 50:
+        floors.append(f"only {c.get('zipped_coordinates_of_mixed_kinds', 0)} zipped coordinates over inputs of different element kinds (< 50)")
     if c.get("coordinate_expectations", 0) < 300:
         floors.append("fewer than 300 coordinate expectations checked")
     if c.get("selections_compared", 0) < 300:
